@@ -21,6 +21,7 @@ def run(repo, run, tier):
     wrappers(repo, run)
     layout(repo, run)
     fd_extrapolation(repo, run, tier)
+    wrapper_statelessness(repo, run)
 
 
 # ------------------------------------------------------------------------------------------------
@@ -530,3 +531,28 @@ def fd_extrapolation(repo, run, tier="quick"):
                                                             "order required): the Jacobian converges no faster than the raw stencil and stalls at its rounding floor, far from the "
                                                             "requested tolerance" % (meth, len(fl), n_j // 2, ex),
                        text="%s extrapolation weights: base orders failing %s" % (meth, sorted({f[1] for f in fl})))
+
+
+def wrapper_statelessness(repo, run):
+    """'never at a time or state cached from an earlier call': the finite-difference wrapper must compute everything about an estimate from the arguments of that
+    call and its configuration; an attribute written while estimating is state that survives into the next call (a cached evaluation, template, mask ...)"""
+    rid = run.rule("C16.7", "who-may-write: the evaluating methods of JacobianWrapper (estimate, richardson, adaptive_richardson, check_converged, __call__) assign no "
+                            "instance attribute except the reported `order`; configuration is written by __init__ only", floor=4)
+    allowed = {"order"}
+    for meth in ("estimate", "richardson", "adaptive_richardson", "check_converged", "__call__"):
+        fn = repo.maybe(UTL, "JacobianWrapper." + meth)
+        if fn is None:
+            raise AnalysisError("JacobianWrapper.%s not found" % meth)
+        writes = []
+        for st in ast.walk(fn):
+            tg = st.targets if isinstance(st, ast.Assign) else ([st.target] if isinstance(st, (ast.AugAssign, ast.AnnAssign)) else [])
+            for t in tg:
+                for x in ast.walk(t):
+                    if isinstance(x, ast.Attribute) and isinstance(x.value, ast.Name) and x.value.id == "self" and isinstance(x.ctx, ast.Store) and x.attr not in allowed:
+                        writes.append((st, x.attr))
+                    if isinstance(x, ast.Subscript) and isinstance(x.ctx, ast.Store) and is_self_attr(x.value):
+                        writes.append((st, x.value.attr + "[...]"))
+        run.judged(rid, "JacobianWrapper.%s writes %s" % (meth, sorted({a for _, a in writes}) or "no instance state"), ok=not writes)
+        for st, a in writes:
+            run.report("C16.7", UTL, st, "JacobianWrapper.%s stores `self.%s` while evaluating: what is stored is reused by later calls, which may be made at another state, "
+                                         "dtype or time (a Jacobian computed from values cached by an earlier call)" % (meth, a))
